@@ -213,7 +213,7 @@ func (d *Dumper) ValueLit(in any, optFns ...ValueLitOptFn) string {
 		keyValues := map[string]reflect.Value{}
 
 		for _, key := range rv.MapKeys() {
-			k := d.ValueLit(key, optFns...)
+			k := d.ValueLit(key, append(optFns, SubValue(false))...)
 			keyLits = append(keyLits, k)
 			keyValues[k] = rv.MapIndex(key)
 		}
